@@ -86,6 +86,10 @@ Qed.
 Lemma get_from_dep_ext E s f ti : ext s (fst (get_from_dep E s f ti)).
 Proof. unfold get_from_dep. destruct (f_guard _); [apply get_internal_ext|apply get_spec_ext]. Qed.
 
+Lemma get_from_dep_untouched E s f ti i :
+  (i < length (copies s))%nat -> getc (fst (get_from_dep E s f ti)) i = getc s i.
+Proof. intros Hi. apply ext_getc; [apply get_from_dep_ext|exact Hi]. Qed.
+
 Lemma new_promise_ext s X rank b src cnt dst : ext s (fst (new_promise s X rank b src cnt dst)).
 Proof. unfold new_promise. cbn [fst]. apply ext_add_fut. Qed.
 
@@ -119,6 +123,10 @@ Lemma getf_setf_other s i g F : i <> g -> getf (setf s i F) g = getf s g.
 Proof. intros H. unfold getf, setf. cbn. apply nth_lset_other. exact H. Qed.
 Lemma length_futs_setf s i F : length (futs (setf s i F)) = length (futs s).
 Proof. unfold setf. cbn. apply length_lset. Qed.
+
+Lemma setup_local_untouched E fx s pk sk X rank cur to i :
+  (i < length (copies s))%nat -> getc (fst (setup_local E fx s pk sk X rank cur to)) i = getc s i.
+Proof. intros Hi. apply ext_getc; [apply setup_local_ext|exact Hi]. Qed.
 
 (* ------------------------------------------- fulfilled at most once *)
 Lemma get_internal_done E s f b c : f_val (getf s f) = Some c -> get_internal E s f b = (s, Some c).
@@ -193,6 +201,9 @@ Qed.
 Lemma match_spec_refl s0 s1 : match_spec s0 s1 s0 s1 = true.
 Proof. unfold match_spec. rewrite !Z.eqb_refl. reflexivity. Qed.
 
+Lemma find_ext' {A} (p q : A -> bool) l : (forall x, In x l -> p x = q x) -> find p l = find q l.
+Proof. induction l as [|y l IH]; cbn; intros H; [reflexivity|]. rewrite (H y) by auto. destruct (q y); auto. Qed.
+
 Lemma find_app_none {A} (p : A -> bool) l x : find p l = None -> find p (l ++ [x]) = if p x then Some x else None.
 Proof. induction l as [|y l IH]; cbn; intros H; [reflexivity|]. destruct (p y); [discriminate|auto]. Qed.
 
@@ -229,7 +240,7 @@ Proof.
     rewrite find_nested_done in H by (intros n Hn; apply (Hnd n Hn)).
     destruct (find (fun n => match_spec (f_m0 (getf s n)) (f_m1 (getf s n)) s0 s1) (f_nested (getf s f))) as [n|] eqn:Hfind.
     + (* an existing nested promise has it *)
-      inv H. split; [|auto].
+      inv H. split; [|split; [exact Hnd|split; [lia|exact Hf]]].
       unfold get_spec. rewrite Hm. rewrite find_nested_done by (intros m Hm'; apply (Hnd m Hm')).
       rewrite Hfind. congruence.
     + (* a new nested promise is created and fulfilled *)
@@ -260,11 +271,11 @@ Proof.
       destruct (negb (sendrecv_ok _ _)); [inv H|]. inv H.
       match goal with |- context[setf ?S0 n ?V] => set (s2 := S0) in *; set (V2 := V) in * end.
       assert (H2n : getf (setf s2 n V2) n = V2).
-      { unfold getf, setf. cbn. apply nth_lset_same. subst s2. cbn. lia. }
+      { apply getf_setf_same. change (n < length (futs sb))%nat. rewrite Hlen_b. lia. }
       assert (H2g : forall g, g <> n -> getf (setf s2 n V2) g = getf sb g).
-      { intros g Hg. unfold getf, setf. cbn. rewrite nth_lset_other by auto. reflexivity. }
+      { intros g Hg. rewrite getf_setf_other by auto. reflexivity. }
       assert (H2len : length (futs (setf s2 n V2)) = S n).
-      { unfold setf. cbn [futs with_futs]. rewrite length_lset. subst s2. cbn. exact Hlen_b. }
+      { rewrite length_futs_setf. change (length (futs sb) = S n). exact Hlen_b. }
       assert (Hnd' : nested_done (setf s2 n V2) f).
       { intros m Hm'. rewrite (H2g f) in Hm' by auto. rewrite Hbf in Hm'. cbn [f_nested fut_nested] in Hm'.
         rewrite H2len. apply in_app_or in Hm'. destruct Hm' as [Hm'|[<-|[]]].
@@ -278,8 +289,9 @@ Proof.
                           (f_nested (getf s f)) = None).
       { rewrite <- Hfind. apply find_ext'. intros m Hm'. destruct (Hnd m Hm') as [H1 [H2 _]].
         rewrite H2g by (unfold n; lia). rewrite Hbg by (auto; unfold n; lia). reflexivity. }
-      rewrite (find_app_none _ _ _ Hold). rewrite H2n. subst V2. cbn [f_m0 f_m1 fut_val N].
-      rewrite match_spec_refl. cbn [f_val fut_val]. reflexivity.
+      rewrite (find_app_none _ _ _ Hold). cbv beta. rewrite H2n.
+      assert (HV : match_spec (f_m0 V2) (f_m1 V2) s0 s1 = true) by (subst V2; cbn; apply match_spec_refl).
+      rewrite HV. rewrite H2n. subst V2. reflexivity.
 Qed.
 
 (* ------------------------------------ no conversion when the shapes are identical *)
